@@ -52,10 +52,11 @@ NoComp == <<>>
 
 Modes_All == {"deduce", "list-all", "str-keys", "set-all", "odict-rot", "list-miss",
               "dict-all", "dict-nosort", "tuple-keys", "tuple-sort", "list-sort", "list-add", "list-add-sort",
-              "deduce-nodup", "deduce-nocheck", "list-nocheck"}
+              "deduce-nodup", "deduce-nocheck", "list-nocheck", "odict-alias", "dict-alias"}
 Modes_Two == {"deduce", "list-all"}
+Modes_Dot == {"deduce", "list-all", "odict-alias"}
 Modes_One == {"deduce"}
-Modes_Conv == {"deduce", "list-all", "str-keys", "odict-rot"}
+Modes_Conv == {"deduce", "list-all", "str-keys", "odict-rot", "odict-alias"}
 Modes_B == {"list-all", "odict-rot"}
 Modes_Pair == {"deduce", "list-all", "set-all"}
 
